@@ -16,12 +16,25 @@ def run_case(c):
     from indi.routing import Router, Client, Device
     log = []
 
+    nested = [0]
+
     class RecClient(Client):
         def __init__(self, i):
             self.i = i
 
         def message_from_device(self, message):
-            log.append(["c", self.i])
+            if not nested[0]:
+                log.append(["c", self.i])
+
+    def answer(dev, name):
+        # a real driver answers while the request is still being routed (getProperties -> definitions): the router is
+        # re-entered from inside message_from_client.  What that inner routing delivers is not this operation's.
+        from indi.message import DefTextVector
+        nested[0] += 1
+        try:
+            router.process_message(DefTextVector(device=name or "A", name="ANSWER", state="Ok", perm="ro"), sender=dev)
+        finally:
+            nested[0] -= 1
 
     class CatchAll(Device):
         def __init__(self, i):
@@ -31,7 +44,10 @@ def run_case(c):
             return True
 
         def message_from_client(self, message):
-            log.append(["d", self.i])
+            if not nested[0]:
+                log.append(["d", self.i])
+                if self.i % 2 == 0:
+                    answer(self, None)
 
     router = Router()
     objs = {}
@@ -46,7 +62,13 @@ def run_case(c):
                         objs[op[1]] = CatchAll(op[1])
                     else:
                         d = driver_class(op[2])()
-                        d.message_from_client = (lambda i: (lambda m: log.append(["d", i])))(op[1])
+
+                        def handed(m, i=op[1], d=d, name=op[2]):
+                            if not nested[0]:
+                                log.append(["d", i])
+                                if i % 2 == 0:
+                                    answer(d, name)
+                        d.message_from_client = handed
                         objs[op[1]] = d
                 router.register_device(objs[op[1]])
             elif op[0] == "regcl":
